@@ -216,3 +216,20 @@ def special_bodies(country_obj, base: str, tokens=None, windows: bool = True):
                 r = emit("run:0x8+digit", p, "0" * 8 + d)
                 if r:
                     yield r
+
+
+# ---------------------------------------------------------------------- wrapped texts
+WRAP = ['"', "'", "`", "(", ")", "[", "]", "{", "}", "<", ">", "«", "»", "“", "”", "‘", "’", "*", "_",
+        "|", "/", "\\", ":", ";", ",", ".", "-", "=", "#", "0", "A"]
+
+
+def wrapped(base: str):
+    """One character in front AND one behind the text at the same time (all ordered pairs of quote,
+    bracket and separator characters - matching and non-matching): the kind of decoration a
+    copy-and-paste leaves around a code.  None of these texts is the code itself."""
+    for a in WRAP:
+        for b in WRAP:
+            yield ("wrapped", a + base + b)
+    for a, b in (("<", ">"), ("(", ")"), ('"', '"'), ("'", "'")):
+        yield ("wrapped-twice", a + a + base + b + b)
+        yield ("wrapped-spaced", a + " " + base + " " + b)
